@@ -1,4 +1,4 @@
-CONSTANTS MaxRows = 3 MaxLen = 3 DTs = {"b1", "i1", "u1", "i8", "f8"}
+CONSTANTS MaxRows = 3 MaxLen = 3 DTs = {"b1", "i1", "u1", "i8", "f8", "u2"}
 INIT Init
 NEXT Next
 INVARIANT TypeOK
